@@ -77,6 +77,7 @@ fn gen_case(rng: &mut Rng) -> Gen {
     spec.trailing = *rng.pick(&[0usize, 0, 0, 1, 100]);
     spec.layout_seed = rng.next_u64();
     spec.raw_share = *rng.pick(&[0u64, 0, 2, 8]);
+    spec.keep_bigger_share = *rng.pick(&[0u64, 4, 8]);
     if rng.chance(1, 3) {
         let n = rng.urange(1, 4);
         for i in 0..n {
@@ -211,12 +212,15 @@ fn one_case(rep: &Report, idx: usize, seed: u64) -> Option<(String, String)> {
         }
         rep.count("library_clones", 1);
         rep.seen("encoding_features", format!(
-            "legacy={} unpacked={} unknown={} defaults={} reversed={} slack={} order={:?} pad={} trailing={} raw={}",
+            "legacy={} unpacked={} unknown={} defaults={} reversed={} slack={} order={:?} pad={} trailing={} raw={} bigger={}",
             g.spec.style.legacy_magic, g.spec.style.unpacked_order, g.spec.style.unknown_fields, g.spec.style.explicit_defaults,
-            g.spec.style.reverse_fields, g.spec.slack > 0, g.spec.order, g.spec.max_pad > 0, g.spec.trailing > 0, g.spec.raw_share
+            g.spec.style.reverse_fields, g.spec.slack > 0, g.spec.order, g.spec.max_pad > 0, g.spec.trailing > 0, g.spec.raw_share, g.spec.keep_bigger_share
         ));
         if chunks.is_empty() {
             rep.count("zero_chunk_archives", 1);
+        }
+        if e.dict.descs.iter().any(|d| d.archive_size > d.source_size) {
+            rep.count("archives_with_chunk_stored_larger_than_source", 1);
         }
         rep.nontrivial(format!("{}#{}", desc, idx));
         rep.sample_if(idx % 37 == 0, || json!({"case": desc, "archive_len": e.bytes.len(), "descriptors": e.dict.descs.len(), "chunks": chunks.len()}));
